@@ -524,6 +524,52 @@ def setup(ctx):
     return Tools(hexe, lean.driver_path("drv_C18"), shim, tmp), ""
 
 
+def replay(ctx, path):
+    """python3 check.py C18 --replay replays/C18/<hash>.json : re-run one recorded case on the current tree and
+    print implementation / window model / spec side by side.  Exit 1 if it still fails."""
+    import json
+    o = json.load(open(path))
+    ok, bdir, lg = True, None, ""
+    okb, out = lean.lake_build(["drv_C18"])
+    T, lg = setup(ctx)
+    if T is None or not okb:
+        print("cannot build harness/driver: " + (lg or out)[-500:])
+        return 2
+    if o.get("stream") == "readcompressed":
+        raw = bytes.fromhex(o["raw_hex"])
+        sm = o["shim"]
+        rc, outl, err = T.harness(["data " + raw.hex(), "rc %d %d %d %d" % (o["amount"], sm[0], sm[1], sm[2])])
+        print("impl    :", outl[1:] if rc == 0 else err[-1500:])
+        print("expected:", o["expected"])
+        return 0 if rc == 0 and len(outl) > 1 and outl[1] == o["expected"] else 1
+    if "input_file" not in o and "raw_hex_of_failing_backend" in o:
+        raw = bytes.fromhex(o["raw_hex_of_failing_backend"] or "")
+        hk = "pipe" if "pipe" in (o.get("backends") or ["file"])[-1] else "file"
+        rc, outl, err = T.harness(["data " + raw.hex(), "open %s 1 0 0 1" % hk] + o["ops"])
+        print("\n".join(outl[-10:]))
+        print(err[-1500:] if rc != 0 else "no crash on this tree")
+        return 1 if rc != 0 else 0
+    raw = open(o["input_file"], "rb").read()
+    plain = raw if o["codec"] == "plain" else py_decompress(raw)
+    sm = (o["shim"]["mode"], o["shim"]["seed"], o["shim"]["span"])
+    hk = o["harness_kind"]
+    mk = {"file": "file" if o["codec"] == "plain" else "lazy", "pipe": "pipe", "istream": "lazy"}[hk]
+    ops = o["ops"]
+    exact = o["codec"] == "plain" and model_cost(len(plain), o["min_buffer"], sm) <= 1.5e8
+    h, d = block_lines(plain, raw, hk, mk, o["min_buffer"], sm, ops, "new" if exact else "spec")
+    rc1, ho, he = T.harness(h)
+    rc2, do, de = T.driver(d)
+    print("%-8s | %-40s | %s" % ("op", "implementation", "window model | spec"))
+    for i, op in enumerate(ops):
+        print("%-8s | %-40s | %s" % (op, ho[2 + i][:40] if 2 + i < len(ho) else "-", do[3 + i][:100] if 3 + i < len(do) else "-"))
+    if rc1 != 0:
+        print(he[-1500:])
+        return 1
+    bad = compare_block(ops, ho, do, exact)
+    print("still failing: %s" % (bad,) if bad else "passes on this tree")
+    return 1 if bad else 0
+
+
 def run(ctx):
     problems, consts = flow.proof_phase(ctx, "C18", probe="probe_C18.cc",
                                         probe_flags=sorted(glob.glob(REPO + "/util/double-conversion/*.cc")),
